@@ -257,7 +257,16 @@ impl<'e> Visitor<'e, 'e> for DepGraph<'e> {
                 None
             }
 
-            Expr::Call(Expr::Ident(id, ..), ..) if !id.name.as_str().starts_with('#') => {
+            // Builtin (`#Int+` etc) operations are the only calls which may be removed if their
+            // result is unused
+            Expr::Call(Expr::Ident(id, ..), ..) if id.name.as_str().starts_with('#') => {
+                walk_expr(self, expr);
+                None
+            }
+
+            // Any other call may have side effects, regardless of how the callee is reached
+            // (identifier, record projection, lambda, ...)
+            Expr::Call(..) => {
                 for window in self
                     .currents
                     .windows(2)
